@@ -106,6 +106,11 @@ func (collection *rcLinkCollectionImpl) GetLinkCount(tx *bbolt.Tx, id []byte, re
 
 func (collection *rcLinkCollectionImpl) EntityDeleted(tx *bbolt.Tx, id string) error {
 	bId := []byte(id)
+	// an extended child store is told about every delete in its parent: an entity without data in this store
+	// has no links here
+	if collection.field.GetStore().GetEntityBucket(tx, bId) == nil {
+		return nil
+	}
 	fieldBucket := collection.getFieldBucket(tx, bId)
 
 	if !fieldBucket.HasError() {
